@@ -492,8 +492,12 @@ def r7_edits_change_the_hash(ctx):
     passed again must lead to new results everywhere, including the rating
     cache, which is keyed on the fit hash: every setting is hashed by its
     full value"""
-    from .c12 import r1_coverage
+    from .c12 import r1_coverage, r2_encoder
     r1_coverage(ctx)
+    # ... and an edited `params_initial` object: every attribute of a
+    # parameter a caller can edit in place (value, vary, min, max, expr)
+    # enters the encoding
+    r2_encoder(ctx)
 
 
 def r8_uniform_result_ownership(ctx):
